@@ -189,7 +189,50 @@ def _private_decl(repo, ref: str, attr: str) -> tuple[ast.AnnAssign | None, str]
     return None, ""
 
 
+# model program for the resolver: modules pkg, pkg.mod; pkg.mod.Top; pkg.mod.Outer.Inner; pkg.mod.Outer.Mid.Leaf
+_MODEL_MODULES = {"pkg": {"mod": "M:pkg.mod"}, "pkg.mod": {"Top": "C:Top", "Outer": "C:Outer"}}
+_MODEL_ATTRS = {"C:Outer": {"Inner": "C:Outer.Inner", "Mid": "C:Outer.Mid"}, "C:Outer.Mid": {"Leaf": "C:Outer.Mid.Leaf"}, "M:pkg.mod": _MODEL_MODULES["pkg.mod"]}
+_MODEL_QUERIES = [("pkg.mod.Top", "C:Top", 1), ("pkg.mod.Outer.Inner", "C:Outer.Inner", 2), ("pkg.mod.Outer.Mid.Leaf", "C:Outer.Mid.Leaf", 3)]
+
+
 def _resolver_depth(fn: ast.AST) -> tuple[str, str]:
+    """Depth of attribute paths the resolver resolves, decided by interpreting its AST (no repo code runs) on a
+    three-level model program; structural reading as a fallback when the interpreter does not support the code."""
+    from ..absint import Interp, Raised, Unsupported
+
+    def imp(name):
+        if name in _MODEL_MODULES:
+            return "M:" + name
+        raise Raised("ImportError", f"No module named {name!r}")
+
+    def ga(obj, name, *default):
+        table = _MODEL_MODULES.get(obj[2:]) if isinstance(obj, str) and obj.startswith("M:") else _MODEL_ATTRS.get(obj)
+        if table and name in table:
+            return table[name]
+        if default:
+            return default[0]
+        raise Raised("AttributeError", f"{obj} has no attribute {name!r}")
+
+    hooks = {"import_module": imp, "importlib.import_module": imp, "getattr": ga}
+    try:
+        got = []
+        for q, want, lvl in _MODEL_QUERIES:
+            try:
+                r = Interp({}, hooks).call_function(fn, {fn.args.args[0].arg: q})
+            except Raised as x:
+                r = f"<{x.name}>"
+            got.append((lvl, r == want, r))
+        if not got[0][1]:
+            raise AnchorError(f"C18.R2: the resolver (AST-interpreted) does not resolve a top-level class: pkg.mod.Top -> {got[0][2]}")
+        deepest = max(lvl for lvl, ok, _r in got if ok) if all(ok for lvl, ok, _r in got if lvl <= max(l2 for l2, o2, _ in got if o2)) else 1
+        desc = "AST-interpreted on a model program: " + ", ".join(f"{q} -> {r}" for (q, _w, _l), (_lv, _ok, r) in zip(_MODEL_QUERIES, got))
+        return ("walk" if deepest == 3 else "one" if deepest == 1 else "partial"), desc
+    except Unsupported:
+        pass
+    return _resolver_depth_structural(fn)
+
+
+def _resolver_depth_structural(fn: ast.AST) -> tuple[str, str]:
     """'one' (module = everything before the last dot, one getattr) or 'walk' (attribute path)."""
     src = ast.unparse(fn)
     getattrs = [c for c in ast.walk(fn) if isinstance(c, ast.Call) and call_name(c) == "getattr"]
@@ -511,12 +554,17 @@ def _name_forms(chk, repo, ev, ser, ut, envm, pairs) -> None:
     chk.floor("C18.R2", "qualified-name writers", len(writers), 4)
     readers = [(m2, c) for m2 in (ev, ser, envm) for c in ast.walk(m2.tree) if isinstance(c, ast.Call) and last(call_name(c)) == "import_module_from_qualified_name"]
     chk.floor("C18.R2", "call sites of the resolver among the paired readers", len(readers), 4)
+    chk.extra["resolver"] = {"depth": depth, "how": how}
     for m2, fn, form, e in writers:
-        ok = form == "__name__" or depth == "walk"
-        chk.ob("C18.R2", f"`{fn.name}` writes `{ast.unparse(e)[:70]}` ({form}); the resolver ({how}) accepts that form", ok, m=m2, node=e, fn=fn, instance=f"name-form:{fn.name}",
-               reason="__qualname__ of a nested class is `Outer.Inner`; the resolver imports everything before the last dot as a module, so the class is not found (exceptions fall back to plain Exception, event types fail to load)")
-        if form == "__name__":
-            chk.observe(f"C18.R2: `{fn.name}` writes __name__: agrees with a single-level resolver, but a class nested in another class cannot be named in this form at all (its round trip fails with any resolver; confirmed for JsonSerializer in triage/t_misc.py)")
+        if form == "__qualname__":
+            chk.ob("C18.R2", f"`{fn.name}` writes `{ast.unparse(e)[:70]}` ({form}); the resolver resolves dotted attribute paths", depth == "walk", m=m2, node=e, fn=fn, instance=f"name-form:{fn.name}",
+                   reason=f"__qualname__ of a nested class is `Outer.Inner` (deeper: `Outer.Mid.Leaf`); resolver depth is `{depth}` ({how}): the class is not found (exceptions fall back to plain Exception, event types fail to load)")
+        elif depth == "one":
+            chk.ob("C18.R2", f"`{fn.name}` writes `{ast.unparse(e)[:70]}` ({form}); a single-level resolver accepts that form", True, m=m2, node=e, fn=fn, instance=f"name-form:{fn.name}")
+            chk.observe(f"C18.R2: `{fn.name}` writes __name__: agrees with a single-level resolver, but a class nested in another class cannot be named in this form at all (its round trip fails with any resolver)")
+        else:
+            chk.ob("C18.R2", f"`{fn.name}` writes `{ast.unparse(e)[:70]}` ({form}): the name it writes identifies the class for the path-walking resolver", False, m=m2, node=e, fn=fn, instance=f"name-complete:{fn.name}",
+                   reason="__name__ drops the enclosing classes (`pkg.mod.Inner` for `pkg.mod.Outer.Inner`): the resolver walks attribute paths but is handed a name that is not an attribute of the module, so an event / model class nested in another class does not load; __qualname__ is identical for top-level classes and complete for nested ones")
     # every pair (serializer, validator) that writes a name reads it through the resolver
     for n, (s_fn, v_fn) in sorted(pairs.items()):
         sw = any(fn.name == s_fn or _calls_fn(ev.functions[s_fn], fn.name) for _m, fn, _f, _e in writers)
